@@ -495,7 +495,9 @@ def run(rep):
     for b in good:
         by.setdefault(b['name'], []).append(b)
     forced = [('SIMMARGIN', 'SIMCAP'), ('SIMCAP', 'FED'), ('SIMCAP', 'SIM'), ('TWOBUS', 'SIMEX'), ('PC', 'SIMCAP'), ('FED', 'TWOGIFTS'),
-              ('SIMBOND', 'MULTI'), ('SIMDEP', 'SIMMON')]
+              ('SIMBOND', 'MULTI'), ('SIMDEP', 'SIMMON'),
+              # twins: both members register, before main(), cash flows of the same local variable names
+              ('TWOGIFTS', 'TWOGIFTS')]
     forced = [f for f in forced if all(n in singles for n in f)]
     for i in range(n_embed):
         k = 2 if rnd.random() < 0.7 else 3
